@@ -60,8 +60,9 @@ class ForcedMismatch(Exception):
     pass
 
 
-def build_dcop(inst):
-    """inst: abstract instance (vars, doms | dsize, cons[{name, scope, tab, kind?}], varcost?, init?, mode)"""
+def build_dcop(inst, ext=None):
+    """inst: abstract instance (vars, doms | dsize, cons[{name, scope, tab, kind?}], varcost?, init?, mode);
+    ext: {variable: value index} = external variables (the DCOP is then assembled the way the YAML loader does)"""
     # concrete domain values: never the positions 0..n-1 (an index must not pass for a value), ints for even-ranked
     # variables and strings for odd-ranked ones, neither in sorted order
     doms = inst.get("doms") or {v: ([7, 3, 5, 11] if i % 2 == 0 else ["R", "G", "B", "A"])[:inst["dsize"][v]]
@@ -74,7 +75,10 @@ def build_dcop(inst):
         iv = doms[v][init[v] - 1] if init.get(v) else None
         costs = vc.get(v)
         kind = (inst.get("varkind") or {}).get(v, "dict")
-        if costs and any(costs):
+        if ext and v in ext:
+            from pydcop.dcop.objects import ExternalVariable
+            vars_[v] = ExternalVariable(v, d, doms[v][ext[v] - 1])
+        elif costs and any(costs):
             table = dict(zip(doms[v], costs))
             if kind == "func":
                 expr = " + ".join("(%d if %s == %r else 0)" % (c, v, x) for x, c in table.items())
@@ -85,13 +89,20 @@ def build_dcop(inst):
             vars_[v] = Variable(v, d, initial_value=iv)
     dcop = DCOP("case", inst.get("mode", "min"))
     for v in vars_.values():
-        dcop.add_variable(v)
+        if not (ext and v.name in ext):
+            dcop.add_variable(v)
+    if ext:
+        dcop.external_variables = {v: vars_[v] for v in ext}
     for i, c in enumerate(inst["cons"]):
         sc = [vars_[s] for s in c["scope"]]
         shape = [len(doms[s]) for s in c["scope"]]
         tab = [float("inf") if x == "inf" else x for x in c["tab"]]
         m = np.array(tab).reshape(shape)
-        dcop.add_constraint(NAryMatrixRelation(sc, m, name=c.get("name", "c%d" % i)))
+        rel = NAryMatrixRelation(sc, m, name=c.get("name", "c%d" % i))
+        if ext:
+            dcop._constraints[rel.name] = rel
+        else:
+            dcop.add_constraint(rel)
     return dcop, doms
 
 
